@@ -195,7 +195,7 @@ def _run_with_interference(wl, plan):
     fs.hook = hook
     with memlib.env(fs, clock):
         try:
-            with H.Watchdog(20):
+            with H.Watchdog(90):
                 probs = _participant(wl, fs, clock)
         except Exception as e:
             import traceback
